@@ -13,39 +13,49 @@ From NT Require Import Sx RLock Skeleton RLockProofs SkeletonProofs NonReentrant
 Import ListNotations.
 
 (* ---------------- the machine, all schedules ---------------- *)
+(* Hypothesis on the family of threads: [all_disciplined] = the writers' discipline of the
+   property statement ("mutate only inside `with tree:`": Acq/Rel balanced, every Write under
+   the lock, Reads anywhere).  A snapshot operation is a thread that is moreover [bracketed]
+   (its Reads under the lock too), Write-free and [one_section]. *)
+
+Theorem C18_bracketed_is_disciplined : forall ps, all_bracketed ps -> all_disciplined ps.
+Proof. exact all_bracketed_disciplined. Qed.
+Print Assumptions C18_bracketed_is_disciplined.
 
 (* the history of a thread is a prefix of its program: nothing else is ever executed on its behalf *)
 Theorem C18_trace_is_program : forall (ps : list prog) (sched : list tid) (t : tid),
-  all_bracketed ps ->
+  all_disciplined ps ->
   proj t (hist (run sched (init ps))) ++ prog_of (run sched (init ps)) t = nth t ps [].
 Proof. exact trace_is_program. Qed.
 Print Assumptions C18_trace_is_program.
 
-(* every Read (and Write, and Rel) happens while its thread owns the lock;
-   every executed Acq found the lock free or already its own *)
+(* every Write and Rel happens while its thread owns the lock; every executed Acq found the lock
+   free or already its own; every Read of a bracketed thread happens while it owns the lock *)
 Theorem C18_reads_under_lock : forall ps sched e,
-  all_bracketed ps -> In e (hist (run sched (init ps))) ->
-  (e_ev e <> EAcq -> e_owner e = Some (e_tid e) /\ 0 < e_depth e) /\
-  (e_ev e = EAcq -> (e_owner e = None /\ e_depth e = 0) \/ (e_owner e = Some (e_tid e) /\ 0 < e_depth e)).
+  all_disciplined ps -> In e (hist (run sched (init ps))) ->
+  (e_ev e = EWrite \/ e_ev e = ERel -> e_owner e = Some (e_tid e) /\ 0 < e_depth e) /\
+  (e_ev e = EAcq -> (e_owner e = None /\ e_depth e = 0) \/ (e_owner e = Some (e_tid e) /\ 0 < e_depth e)) /\
+  (e_ev e = ERead -> bracketed (nth (e_tid e) ps []) = true -> e_owner e = Some (e_tid e) /\ 0 < e_depth e).
 Proof. exact events_under_lock. Qed.
 Print Assumptions C18_reads_under_lock.
 
-(* between the outermost Acq of t (entry a) and its matching outermost Rel, every executed event
-   is t's own: no Write - no event at all - of another thread; the version moves by t's Writes only *)
-Theorem C18_no_foreign_event_in_section : forall ps sched t l1 a l2 e l3,
-  all_bracketed ps ->
+(* between the outermost Acq of t (entry a) and its matching outermost Rel the lock is t's and
+   every executed event other than a Read is t's own: no Write (no Acq, no Rel) of another thread;
+   the version moves by t's own Writes only *)
+Theorem C18_no_foreign_write_in_section : forall ps sched t l1 a l2 e l3,
+  all_disciplined ps ->
   hist (run sched (init ps)) = l1 ++ a :: l2 ++ e :: l3 ->
   is_oacq t a -> (forall x, In x l2 -> ~ is_orel t x) ->
   e_owner a = None /\
-  (forall x, In x l2 -> e_tid x = t /\ e_owner x = Some t) /\
-  e_tid e = t /\ e_owner e = Some t /\ e_ver e = e_ver a + wcount l2.
+  (forall x, In x l2 -> e_owner x = Some t /\ (e_ev x <> ERead -> e_tid x = t)) /\
+  e_owner e = Some t /\ (e_ev e <> ERead -> e_tid e = t) /\ e_ver e = e_ver a + wcount l2.
 Proof. exact section_exclusive. Qed.
-Print Assumptions C18_no_foreign_event_in_section.
+Print Assumptions C18_no_foreign_write_in_section.
 
 (* a Write-free thread sees, throughout a critical section, the version it found when it took
    the free lock *)
 Theorem C18_section_one_version : forall ps sched t l1 a l2 e l3,
-  all_bracketed ps -> writes (nth t ps []) = false ->
+  all_disciplined ps -> writes (nth t ps []) = false ->
   hist (run sched (init ps)) = l1 ++ a :: l2 ++ e :: l3 ->
   is_oacq t a -> (forall x, In x l2 -> ~ is_orel t x) ->
   e_ver e = e_ver a /\ e_owner a = None /\ e_owner e = Some t.
@@ -54,15 +64,17 @@ Print Assumptions C18_section_one_version.
 
 (* every event executed under the lock lies in a section opened while the lock was free *)
 Theorem C18_owned_event_in_section : forall ps sched t l0 e l3,
-  all_bracketed ps -> hist (run sched (init ps)) = l0 ++ e :: l3 -> e_owner e = Some t ->
+  all_disciplined ps -> hist (run sched (init ps)) = l0 ++ e :: l3 -> e_owner e = Some t ->
   exists l1 a l2, l0 = l1 ++ a :: l2 /\ is_oacq t a /\ forall x, In x l2 -> ~ is_orel t x.
 Proof. exact owned_in_section. Qed.
 Print Assumptions C18_owned_event_in_section.
 
-(* a snapshot execution (no Write, at most one outermost section): ALL its reads happen under
-   the lock and see ONE version - the version of a moment at which the lock was free *)
+(* a snapshot execution (bracketed, no Write, at most one outermost section) among disciplined
+   threads: ALL its reads happen under the lock and see ONE version - the version of a moment at
+   which the lock was free *)
 Theorem C18_snapshot_one_version : forall ps sched t e1,
-  all_bracketed ps -> writes (nth t ps []) = false -> one_section (nth t ps []) = true ->
+  all_disciplined ps ->
+  bracketed (nth t ps []) = true -> writes (nth t ps []) = false -> one_section (nth t ps []) = true ->
   In e1 (hist (run sched (init ps))) -> e_tid e1 = t -> e_ev e1 = ERead ->
   exists a, In a (hist (run sched (init ps))) /\ is_oacq t a /\ e_owner a = None /\
     forall e2, In e2 (hist (run sched (init ps))) -> e_tid e2 = t -> e_ev e2 = ERead ->
@@ -70,7 +82,7 @@ Theorem C18_snapshot_one_version : forall ps sched t e1,
 Proof. exact snapshot_one_version. Qed.
 Print Assumptions C18_snapshot_one_version.
 
-Theorem C18_sections_bounded : forall ps sched t, all_bracketed ps ->
+Theorem C18_sections_bounded : forall ps sched t, all_disciplined ps ->
   length (filter (is_oacqb t) (hist (run sched (init ps)))) <= nsec 0 (nth t ps []).
 Proof. exact sections_bounded. Qed.
 Print Assumptions C18_sections_bounded.
@@ -78,7 +90,7 @@ Print Assumptions C18_sections_bounded.
 (* re-entrancy: the owner is never blocked (whatever its next event is, nested Acq included),
    and its tick is a real step *)
 Theorem C18_owner_never_blocked : forall ps sched t,
-  all_bracketed ps -> owner (run sched (init ps)) = Some t ->
+  all_disciplined ps -> owner (run sched (init ps)) = Some t ->
   enabled (run sched (init ps)) t = true /\
   exists e r, next (run sched (init ps)) t = Some (e, r) /\
     hist (step t (run sched (init ps))) =
@@ -92,7 +104,7 @@ Print Assumptions C18_owner_never_blocked.
 (* nesting returns the depth to 0: a finished thread does not hold the lock, and when all
    threads are finished the lock is free *)
 Theorem C18_depth_returns_to_zero : forall ps sched,
-  all_bracketed ps ->
+  all_disciplined ps ->
   (forall t, prog_of (run sched (init ps)) t = [] -> owner (run sched (init ps)) <> Some t) /\
   (finished (run sched (init ps)) = true ->
    owner (run sched (init ps)) = None /\ depth (run sched (init ps)) = 0).
@@ -106,12 +118,12 @@ Print Assumptions C18_depth_returns_to_zero.
 (* no deadlock: as long as some thread is unfinished some thread is enabled; an enabled tick
    executes one event; hence every schedule can be extended to one that completes all threads *)
 Theorem C18_no_deadlock : forall ps sched,
-  all_bracketed ps -> finished (run sched (init ps)) = false ->
+  all_disciplined ps -> finished (run sched (init ps)) = false ->
   exists t, enabled (run sched (init ps)) t = true.
 Proof. intros ps sched F. exact (no_deadlock ps _ (inv_reach ps sched F)). Qed.
 Print Assumptions C18_no_deadlock.
 
-Theorem C18_completion : forall ps sched, all_bracketed ps ->
+Theorem C18_completion : forall ps sched, all_disciplined ps ->
   exists more, finished (run (sched ++ more) (init ps)) = true /\
                owner (run (sched ++ more) (init ps)) = None /\ depth (run (sched ++ more) (init ps)) = 0.
 Proof. exact every_schedule_extends_to_completion. Qed.
@@ -167,18 +179,19 @@ Proof. exact expansions_sound. Qed.
 Print Assumptions C18_enumerator_sound.
 
 (* the end-to-end statement: a generated snapshot operation (any unfolding of any of its paths)
-   running as thread t among ARBITRARY bracketed threads (writers, other snapshots), under ANY
-   schedule: all its reads are made as owner of the lock and see one version, found free *)
+   running as thread t among ARBITRARY disciplined threads (writers that mutate only inside
+   `with tree:`, other snapshots, unlocked readers), under ANY schedule: all its reads are made
+   as owner of the lock and see one version, found when the lock was free *)
 Theorem C18_snapshot_operations_honour_lock : forall e p q ps sched t e1,
   In e SNAPSHOT_PROGS -> In p (snd e) -> exp SNAPSHOT_PROGS p q ->
-  all_bracketed ps -> nth t ps [] = q ->
+  all_disciplined ps -> nth t ps [] = q ->
   In e1 (hist (run sched (init ps))) -> e_tid e1 = t -> e_ev e1 = ERead ->
   exists a, In a (hist (run sched (init ps))) /\ is_oacq t a /\ e_owner a = None /\
     forall e2, In e2 (hist (run sched (init ps))) -> e_tid e2 = t -> e_ev e2 = ERead ->
       e_owner e2 = Some t /\ e_ver e2 = e_ver a.
 Proof.
-  intros e p q ps sched t e1 He Hp Hq F Ht. destruct (C18_every_unfolding_is_snapshot e p q He Hp Hq) as [_ [O W]].
-  apply snapshot_one_version; [exact F|rewrite Ht; exact W|rewrite Ht; exact O].
+  intros e p q ps sched t e1 He Hp Hq F Ht. destruct (C18_every_unfolding_is_snapshot e p q He Hp Hq) as [B [O W]].
+  apply snapshot_one_version; [exact F|rewrite Ht; exact B|rewrite Ht; exact W|rewrite Ht; exact O].
 Qed.
 Print Assumptions C18_snapshot_operations_honour_lock.
 
@@ -219,11 +232,27 @@ Example C18_nonvacuous_schedule :
   let ps := [[EAcq; EWrite; EWrite; ERel]; [EAcq; ERead; EAcq; ERead; ERel; ERel];
              [EAcq; EAcq; EWrite; ERel; ERel]; [EAcq; ERead; ERead; ERel]] in
   let s := run [0; 0; 1; 3; 1; 0; 1; 1; 2; 0;  1; 1; 1; 3; 1; 1; 1;  2; 2; 3; 2; 2; 2;  3; 3; 3; 3] (init ps) in
-  all_bracketed ps /\ writes (nth 1 ps []) = false /\ one_section (nth 1 ps []) = true /\
+  all_bracketed ps /\ all_disciplined ps /\ writes (nth 1 ps []) = false /\ one_section (nth 1 ps []) = true /\
   finished s = true /\ owner s = None /\ ver s = 3 /\
   map e_ver (filter (fun e => (e_tid e =? 1) && ev_eqb (e_ev e) ERead) (hist s)) = [2; 2] /\
   map e_ver (filter (fun e => (e_tid e =? 3) && ev_eqb (e_ev e) ERead) (hist s)) = [3; 3].
 Proof. vm_compute. repeat split; repeat constructor. Qed.
+
+(* the hypotheses really are weaker than "everybody brackets everything": a writer, a snapshot
+   and a thread that reads WITHOUT the lock.  The family is disciplined (not all bracketed); the
+   unlocked reader sees the torn version 1, the snapshot - blocked meanwhile - sees 2 only *)
+Example C18_nonvacuous_unlocked_reader :
+  let ps := [[EAcq; EWrite; EWrite; ERel]; [EAcq; ERead; ERead; ERel]; [ERead; ERead]] in
+  let s := run [0; 0; 1; 2; 1; 0; 0; 1; 1; 2; 1; 1] (init ps) in
+  all_disciplined ps /\ ~ all_bracketed ps /\ bracketed (nth 1 ps []) = true /\ finished s = true /\
+  map e_ver (filter (fun e => (e_tid e =? 1) && ev_eqb (e_ev e) ERead) (hist s)) = [2; 2] /\
+  map (fun e => (e_ver e, e_owner e)) (filter (fun e => (e_tid e =? 2) && ev_eqb (e_ev e) ERead) (hist s))
+    = [(1, Some 0); (2, Some 1)].
+Proof.
+  split; [repeat constructor|]. split; [|vm_compute; repeat split].
+  intros H. unfold all_bracketed in H. rewrite Forall_forall in H.
+  specialize (H [ERead; ERead]). cbn in H. assert (false = true); [apply H; tauto|discriminate].
+Qed.
 
 (* D38, the unrepaired TypedTree.save = [Read; Acq; Read; Rel]: not bracketed, and there IS a
    schedule in which its two reads see different versions, one of them torn (inside the
